@@ -498,7 +498,7 @@ func (fc *FnCtx) checkPost(st *State, vals []Val, panicked bool) {
 			}
 		}
 	}
-	env := &SpecEnv{fc: fc, st: st, old: fc.entry, scope: scope, oldScope: fc.paramsEntry, pkg: fc.pkg, useVars: true}
+	env := &SpecEnv{fc: fc, st: st, old: fc.entry, scope: scope, oldScope: fc.paramsEntry, pkg: fc.pkg, useVars: true, outermost: true}
 	for i, en := range ct.Ensures {
 		v := fc.safeSpec(env, en.E, en.Text)
 		fc.assertNamed(st, "post", clauseName(en, i), v.T, "postcondition: "+en.Text, pos)
